@@ -510,7 +510,9 @@ uint8_t* DNS::update_dname(uint8_t* ptr, uint32_t threshold, uint32_t offset) {
             uint16_t index;
             memcpy(&index, ptr, sizeof(uint16_t));
             index = Endian::be_to_host(index) & 0x3fff;
-            if (index > threshold) {
+            // The pointer is an offset from the start of the message, the threshold 
+            // is an offset into records_data_. The bytes at and after the threshold move.
+            if (index >= threshold + sizeof(dns_header)) {
                 index = Endian::host_to_be<uint16_t>((index + offset) | 0xc000);
                 memcpy(ptr, &index, sizeof(uint16_t));
             }
